@@ -3424,6 +3424,24 @@ impl RaftNode {
 
         // Install the snapshot
         let mut persistent = self.persistent.write();
+        // A WAL-backed node recovers its log from the WAL alone: the installed entries (and the
+        // removal of anything beyond them) must be durable before they replace the log, or a
+        // restart comes back without entries this node goes on to acknowledge.
+        if let Some(ref wal) = self.wal {
+            for entry in &entries {
+                self.persist_log_entry(entry)?;
+            }
+            let installed_len = entries.last().map_or(0, |e| e.index);
+            if persistent.array_len_as_log_index() > installed_len {
+                wal.lock()
+                    .append(&crate::raft_wal::RaftWalEntry::LogTruncate {
+                        from_index: installed_len + 1,
+                    })
+                    .map_err(|e| {
+                        ChainError::StorageError(format!("WAL log truncate failed: {e}"))
+                    })?;
+            }
+        }
         // Replace log with entries from snapshot - reset base since we have
         // a complete set of entries starting from index 1
         persistent.log = entries;
